@@ -13,20 +13,22 @@ pub const MAX_CELLS: usize = 200_000;
 
 /// (a) on the real state: look at the next EXEC item; if it is an instruction with a size-like
 /// INTEGER operand, clamp that operand.
-pub fn clamp_sizes(st: &mut PushState) {
+pub fn clamp_sizes(st: &mut PushState) -> bool {
     let name = match st.exec_stack.get(0) {
         Some(Item::InstructionMeta { name }) => name.clone(),
-        _ => return,
+        _ => return false,
     };
     if let Some(fp) = footprint::get(&name) {
         if let Some(pos) = fp.size_at {
             if let Some(v) = st.int_stack.get_mut(pos) {
                 if *v > MAX_SIZE_OPERAND {
                     *v = MAX_SIZE_OPERAND;
+                    return true;
                 }
             }
         }
     }
+    false
 }
 /// (a) on a spec, for single-instruction cases
 pub fn clamp_sizes_spec(s: &mut StateSpec, name: &str) -> bool {
